@@ -3,6 +3,8 @@ package mp
 import (
 	"fmt"
 	"io"
+
+	"verif/uni"
 	"math"
 	"math/big"
 
@@ -46,6 +48,23 @@ func KSOps(params rlwe.Parameters, sig, key string, level int, agg func(a, b mul
 		},
 		Stream: func(a multiparty.KeySwitchShare, wrap func(io.Reader) io.Reader) (multiparty.KeySwitchShare, error) {
 			return StreamHop[multiparty.KeySwitchShare](a, wrap)
+		},
+		Used: func(which int) multiparty.KeySwitchShare {
+			// a receive buffer that held a share at the maximum level (A) / at level 0 (B)
+			lv := params.MaxLevel()
+			if which == 1 {
+				lv = 0
+			}
+			r := alloc(lv)
+			ring.NewUniformSampler(uni.KeyedPRNG(key, "used-receiver", which), params.RingQ().AtLevel(lv)).Read(r.Value)
+			return r
+		},
+		Into: func(a multiparty.KeySwitchShare, recv *multiparty.KeySwitchShare) error {
+			data, err := a.MarshalBinary()
+			if err != nil {
+				return err
+			}
+			return recv.UnmarshalBinary(data)
 		},
 		Flat: func(a multiparty.KeySwitchShare) Flat {
 			return Flat{Tag: fmt.Sprintf("ks|lvl=%d", a.Value.Level()), Rows: RowsQ(nil, params.RingQ(), a.Value)}
@@ -98,4 +117,30 @@ func PooledSigma(samples []*big.Int) float64 {
 		acc += f * f
 	}
 	return math.Sqrt(acc / float64(len(samples)))
+}
+
+// UsedRefresh returns a receive buffer that held a RefreshShare of another shape: both halves at the maximum level
+// (which = 0) / at level 0 (which = 1), uniform content, other metadata.
+func UsedRefresh(paramsIn, paramsOut rlwe.Parameters, alloc func(levelDecrypt, levelRecrypt int) multiparty.RefreshShare, which int, key ...interface{}) multiparty.RefreshShare {
+	li, lo := paramsIn.MaxLevel(), paramsOut.MaxLevel()
+	if which == 1 {
+		li, lo = 0, 0
+	}
+	r := alloc(li, lo)
+	prng := uni.KeyedPRNG(append(key, "used-refresh-receiver", which)...)
+	ring.NewUniformSampler(prng, paramsIn.RingQ().AtLevel(li)).Read(r.EncToShareShare.Value)
+	ring.NewUniformSampler(prng, paramsOut.RingQ().AtLevel(lo)).Read(r.ShareToEncShare.Value)
+	r.MetaData.IsNTT = true
+	r.MetaData.LogDimensions.Cols = 1
+	r.MetaData.Scale = rlwe.NewScale(12345)
+	return r
+}
+
+// IntoRefresh decodes a (MarshalBinary) into an existing receiver (UnmarshalBinary).
+func IntoRefresh(a multiparty.RefreshShare, recv *multiparty.RefreshShare) error {
+	data, err := a.MarshalBinary()
+	if err != nil {
+		return err
+	}
+	return recv.UnmarshalBinary(data)
 }
